@@ -110,6 +110,11 @@ func c13StoreRetry(c *core.Ctx, rule string) {
 	}
 	eq := core.RelEdges(fn, func(ssa.Value) bool { return true }, core.IsValue(fn.Params[3]), token.EQL)
 	eq = append(eq, core.RelEdges(fn, core.IsValue(fn.Params[3]), func(ssa.Value) bool { return true }, token.EQL)...)
+	// equivalent spellings of "0 = for ever": the give-up edge may also lie behind a test that maxRetries is positive
+	isMax := core.IsValue(fn.Params[3])
+	eq = append(eq, core.RelEdges(fn, isMax, core.IsConstInt(0), token.GTR)...)
+	eq = append(eq, core.RelEdges(fn, isMax, core.IsConstInt(0), token.NEQ)...)
+	eq = append(eq, core.RelEdges(fn, isMax, core.IsConstInt(1), token.GEQ)...)
 	ok := len(eq) > 0
 	n := 0
 	for _, rc := range core.ReturnCases(fn) {
